@@ -13,14 +13,20 @@ EXTENDS Integers, Sequences, FiniteSets, TLC, Json
 CONSTANTS
   DEV_NilDerefs,      \* subset of {"nfci","pdu","plmn","requnit","rparam"}: members dereferenced unguarded
   DEV_CreateNoDefer,  \* TRUE: create unlocks manually on each return path, so a panic leaves the lock held
-  Eps, Supis, Nfcis, Plmns, Pdus, Usages, Trigs, Rparams, Priors, Notifys, EmitOneIn
+  Eps, Supis, Nfcis, Plmns, Pdus, Usages, Trigs, Rparams, Priors, Notifys,
+  Ctls,   \* control members of the request: "plain"; "retx" = retransmissionIndicator set; "isn0" / "isnabs" = invocation
+          \* sequence number 0 / absent; "retx0" / "retxabs" = both
+  Bulks,  \* "none" | "many": the usage entry carries more than a thousand containers (a body well beyond 64 KiB)
+  EmitOneIn
 
 VARIABLES shape, phase, locked, known, out, fol
 vars == <<shape, phase, locked, known, out, fol>>
 
 Mk(e, s, n, p, d, u, t, r, pr, nf) ==
   [ep |-> e, supi |-> s, nfci |-> n, plmn |-> p, pdu |-> d, usage |-> u, trig |-> t, rparam |-> r, prior |-> pr,
-   notify |-> nf]     \* whether the (prior or probed) create registers a notification URI
+   notify |-> nf,     \* whether the (prior or probed) create registers a notification URI
+   ctl |-> "plain", bulk |-> "none"]
+MkX(sh, c, b) == [sh EXCEPT !.ctl = c, !.bulk = b]
 \* only the members an endpoint reads vary for it (keeps the enumeration free of duplicates)
 Shapes ==
   (IF "create" \in Eps THEN {Mk("create", s, n, p, d, u, "none", "u_1", pr, nf) :
@@ -29,6 +35,11 @@ Shapes ==
        e \in Eps \cap {"update", "release"}, s \in Supis, u \in Usages, t \in Trigs, pr \in Priors}
   \cup (IF "recharge" \in Eps THEN {Mk("recharge", s, "present", "absent", "absent", "none", "none", r, pr, nf) :
        s \in Supis, r \in Rparams, pr \in Priors, nf \in Notifys} ELSE {})
+  \* otherwise well-formed requests of a well-formed subscriber whose control members / size are unusual
+  \cup {MkX(Mk(e, "imsi", "present", "absent", "absent", u, t, "u_1", pr, "present"), c, b) :
+       e \in Eps \cap {"update", "release"}, u \in Usages, t \in Trigs, pr \in Priors, c \in Ctls, b \in Bulks}
+  \cup (IF "create" \in Eps THEN {MkX(Mk("create", "imsi", "present", "absent", d, u, "none", "u_1", pr, "present"), c, b) :
+       d \in Pdus \cap {"absent", "full"}, u \in Usages \cap {"none", "offline"}, pr \in Priors, c \in Ctls, b \in Bulks} ELSE {})
 
 ImsiLike(s) == s.supi = "imsi"      \* "imsi-" followed by 5..15 digits (an empty, over-long or path-like IMSI is rejected)
 
